@@ -1,6 +1,7 @@
 /- Driver, group `q`: `src/dimensions.rs` and the small conversions. -/
 import Rrtk.Drv.Base
 import Rrtk.Gen.Constants
+import Rrtk.ConstNames
 import Rrtk.MotionProfile
 namespace Rrtk.Drv
 open Rrtk Rrtk.Wire
@@ -83,6 +84,17 @@ def runQ (chk : Bool) (toks : List String) : M Unit := do
     | "cmp" =>
       let x := mkQ chk (← need (pQ a)); let y := mkQ chk (← need (pQ b))
       emit (sOrdering (← liftP (Quantity.partialCmp chk x y)))
+    | "constadd" =>
+      -- `Quantity::new(v, <the named constant>) + <quantity>`: the constant MEANS what its name states (`nameExponents`), whatever
+      -- the table regenerated from the source says — a program that adds it to a quantity of that unit is dimensionally correct
+      match Gen.constants.find? (·.name == a) with
+      | some r =>
+        let y := mkQ chk (← need (pQ b))
+        let (mm, s) := (nameExponents r.toks).getD (r.mm, r.s)
+        let x : Quantity F := ⟨y.value, DUnit.new chk mm s⟩
+        match ← liftP (Quantity.add chk x y) with
+        | q => emit (sQ q)
+      | none => noimpl
     | "eq" =>
       let x := mkQ chk (← need (pQ a)); let y := mkQ chk (← need (pQ b))
       emit (sB (Quantity.eq chk x y))
